@@ -33,6 +33,8 @@ P6 (K1) Converter3to4.convert: create_dirstate_data, then update_format, then re
 between writing the new data and deleting the old.
 P7 (third round) with _create_branch set and a referenced branch, repo.fetch(self.referenced_branch.repository, …) lies on every path to
    controldir.create_branch(), whether the repository is created or reused.
+P8 a repository created while the tree is kept also receives the tree's pending merge parents; P9 the repository that takes over under
+   --use-shared is checked to be shared before the own one is destroyed (both: known findings on this tree).
 Does not decide: the other converters, nor that the copied data is equal (values); those stay not applicable.
 """
 DESTROY = {"destroy_branch", "destroy_repository", "destroy_workingtree"}
@@ -85,6 +87,24 @@ def run(ctx):
         live_cb = [i for i in cb if i in g7.reachable_from_entry()]
         ok7 = bool(live_cb) and not (set(live_cb) & g7.reach([g7.entry], avoid=set(fetch_ref), include_src=True))
         ctx.check("P7-new-branch-history-fetched", f"{where}[_create_repository={create_repo}]", ok7, f"with _create_branch set and a referenced branch, every path to controldir.create_branch() passes repo.fetch(self.referenced_branch.repository, …) (repository {'created' if create_repo else 'reused'})", message=f"Reconfigure.apply can create the local branch in place of a reference without having fetched the referenced branch's history into the repository it uses (repository {'created' if create_repo else 'reused, e.g. a lightweight checkout inside a shared repository other than the one of its branch'}): the new branch's tip names a revision its repository lacks, tip and testaments are unreadable")
+    # ---- P8/P9 (from a third-round agent's observations on the unmodified tree; both are known findings) -------------
+    # P8: a repository created for a branch that keeps its working tree also receives the tree's pending merge parents
+    crepo = [n for n in walk_own(fn) if isinstance(n, ast.If) and norm(n.test) == "self._create_repository"]
+    ctx.require(len(crepo) == 1, f"{where}: `if self._create_repository:` not found")
+    fetched = [norm(c) for st in crepo[0].body for c in calls_in(st) if call_attr(c) == "fetch"]
+    pend = any("get_parent_ids" in f_ or "pending" in f_ or "self.tree" in f_ for f_ in fetched) or any("get_parent_ids" in norm(st) for st in crepo[0].body)
+    if pend:
+        ctx.check("P8-pending-merges-fetched", where, True, "the new repository also receives the working tree's pending merge parents")
+    else:
+        ctx.violation("P8-pending-merges-fetched", where, "; ".join(f_[:70] for f_ in fetched), "when apply() creates a repository for a branch that keeps its working tree it fetches the branch tip only: the revisions of an uncommitted merge (the tree's other parents) stay behind in the shared repository, `reconfigure --standalone` leaves the pending merge as a ghost — the tree's pending changes are not preserved")
+    # P9: the repository that takes over before the own one is destroyed is one the branch will find again (a shared one)
+    drepo = [n for n in walk_own(fn) if isinstance(n, ast.If) and norm(n.test) == "self._destroy_repository" and any(call_attr(c) == "find_repository" for st in n.body for c in calls_in(st))]
+    ctx.require(len(drepo) == 1, f"{where}: the `if self._destroy_repository:` block that looks for the new repository was not found")
+    shared_checked = any(call_attr(c) == "is_shared" for c in calls_in(drepo[0])) or any("is_shared" in norm(t_) for n_ in ast.walk(drepo[0]) if isinstance(n_, ast.If) for t_ in [n_.test])
+    if shared_checked:
+        ctx.check("P9-takeover-repository-is-shared", where, True, "the repository found upward is checked to be shared before the own repository is destroyed")
+    else:
+        ctx.violation("P9-takeover-repository-is-shared", where, "new_repo = up_controldir.find_repository(); new_repo.fetch(self.repository)", "with --use-shared apply() fetches into whatever repository find_repository() meets above the branch and then destroys the branch's own repository, without asking whether that repository is shared: for a standalone branch nested in another standalone branch the revisions go into the outer, non-shared repository, which the inner branch will not use — it is left with NoRepositoryPresent, tip and history unreachable")
     # ---- P3 -----------------------------------------------------------------------------------
     mt = [c for c in calls_in(fn) if call_attr(c) == "merge_to"]
     pairs = sorted((norm(c.func.value), norm(c.args[0])) for c in mt)
